@@ -1637,8 +1637,8 @@ class Interp:
                     pass  # the model does not apply to this receiver: python's own semantics below
             if isinstance(recv, Obj) and isinstance(recv.attrs.get(f.attr), PyFunc):
                 return recv.attrs[f.attr].f(self.eval_args(e.args), self.eval_kwargs(e.keywords))  # a modelled callable stored on the object
-            if isinstance(recv, Obj) and recv.name == "functools" and f.attr in ("reduce", "partial"):
-                pass  # functools.reduce is the builtin modelled below, whatever stands for the module in the scenario
+            if isinstance(recv, Obj) and ((recv.name == "functools" and f.attr in ("reduce", "partial")) or (recv.name == "itertools" and f.attr in ("accumulate", "count", "chain")) or (recv.name == "math" and f.attr == "prod") or (recv.name == "collections" and f.attr in ("ChainMap", "defaultdict")) or (recv.name == "types" and f.attr == "MappingProxyType")):
+                pass  # the standard-library functions modelled below, whatever stands for the module in the scenario (also a function-level `import itertools`)
             elif isinstance(recv, Obj) and recv.name != "tensorlib":  # the backend stand-in's methods are the array functions below, whatever the local variable is called
                 if recv.attrs.get("__strict_calls__"):
                     raise Undecided(f"call of {recv.name}.{f.attr}(...): not one of the functions of that module the scenario models")
